@@ -431,7 +431,7 @@ pub fn run(ctx: &Ctx) -> i32 {
         let r = replay_known(ctx, k);
         outcome.known_replay(k, r);
     }
-    let fails = run_tapes(ctx, "degree_claims", ctx.tier.pick(12_000, 300_000), 4000, &stats, case);
+    let fails = run_tapes_opts(ctx, "degree_claims", ctx.tier.pick(12_000, 300_000), 4000, 250, &stats, case);
     outcome.absorb(&known, fails);
     finish(
         ctx,
